@@ -252,10 +252,12 @@ std::vector<std::string> split_args(const std::string& s);
 template <typename ItemContainerT, typename DelimiterT>
 std::string join(const ItemContainerT& items, DelimiterT& delim) {
   std::string ret;
+  bool is_first = true;
   for (const auto& item : items) {
-    if (!ret.empty()) {
+    if (!is_first) {
       ret += delim;
     }
+    is_first = false;
     ret += item;
   }
   return ret;
